@@ -117,7 +117,7 @@ def signalDoc (pfx sg : String) (len : Nat) (entries : List SigEntry) : DesDoc :
    Line.struct (sname ++ "-_Self") (duplex len),
    Line.assign (sname ++ "-_Self") [⟨wcName pfx sg, false⟩, ⟨sname, false⟩]] ++
   (Sys.dedupEntries entries).flatMap (fun e =>
-    let dn := sname ++ "-" ++ (portItems pfx e).1
+    let dn := sname ++ "-" ++ (portItems pfx e).1 ++ Sys.rcSuffix entries e
     [Line.struct dn (duplex len),
      Line.assign dn (⟨if e.wc then sname else wcName pfx sg, false⟩ :: (portItems pfx e).2)])
 
